@@ -42,7 +42,8 @@ func WriteTo(w io.Writer, idx *Index) error {
 	if err != nil {
 		return err
 	}
-	binLimit := uint32(((1 << ((idx.depth + 1) * nextBinShift)) - 1) / 7)
+	// The bin count of depth 10 needs more than 32 bits before the division.
+	binLimit := uint32(((uint64(1) << ((idx.depth + 1) * nextBinShift)) - 1) / 7)
 	err = writeIndices(w, idx.Version, idx.refs, binLimit)
 	if err != nil {
 		return err
